@@ -129,6 +129,7 @@ def run_scenario(args):
         sol.close()
     except Exception as e:
         out['status'] = 'inconclusive'; out['notes'].append('encoder error: %s: %s' % (type(e).__name__, e))
+        if os.environ.get('VERIF_TRACEBACK'): traceback.print_exc()
         out['trace'] = traceback.format_exc()[-1500:]
     out['wall_s'] = round(time.time() - t0, 2)
     return out
